@@ -107,6 +107,16 @@ Definition update_rtt (c : send_rate_comp) (sample_s : float) : float * N :=
 Definition compute_rto_s (rtt_s : float) (send_rate : N) : float :=
   fmax (PrimFloat.mul 4 rtt_s) (PrimFloat.div (f_of_N (2 * MSS)) (f_of_N send_rate)).
 
+(* the `recv_limit` computation of handle_feedback: (new X_recv_set, recv_limit) *)
+Definition recv_limit_update (es : list recv_entry) (now_ms recv_rate rtt_ms : N) (rate_limited loss_increase : bool)
+  : res (list recv_entry * N) :=
+  if rate_limited then
+    do r <- rrs_rate_limited_update es now_ms recv_rate rtt_ms; Ok (fst r, sat_mul2_u32 (snd r))
+  else if loss_increase then
+    do r <- rrs_loss_increase_update es now_ms recv_rate; Ok (fst r, snd r)
+  else
+    do r <- rrs_data_limited_update es now_ms recv_rate; Ok (fst r, sat_mul2_u32 (snd r)).
+
 (* handle_feedback; the reset_loss_rate callback argument is returned *)
 Definition src_handle_feedback (c : send_rate_comp) (now_ms : N) (fb : feedback_data)
   : res (send_rate_comp * option float) :=
@@ -117,12 +127,7 @@ Definition src_handle_feedback (c : send_rate_comp) (now_ms : N) (fb : feedback_
   let rto_s := compute_rto_s rtt_s (sr_rate c) in
   let rto_ms := s_to_ms rto_s in
   let loss_increase := PrimFloat.ltb (sr_prev_loss c) loss_rate in
-  do rl <- (if fd_rate_limited fb then
-              do r <- rrs_rate_limited_update (sr_recv_set c) now_ms recv_rate rtt_ms; Ok (fst r, sat_mul2_u32 (snd r))
-            else if loss_increase then
-              do r <- rrs_loss_increase_update (sr_recv_set c) now_ms recv_rate; Ok (fst r, snd r)
-            else
-              do r <- rrs_data_limited_update (sr_recv_set c) now_ms recv_rate; Ok (fst r, sat_mul2_u32 (snd r)));
+  do rl <- recv_limit_update (sr_recv_set c) now_ms recv_rate rtt_ms (fd_rate_limited fb) loss_increase;
   let '(recv_set, recv_limit) := rl in
   do r2 <- (match sr_mode_ c with
             | SlowStart tld =>
